@@ -53,15 +53,16 @@ try:
             if not pd: res[os.path.basename(demo)]={"error":"package dir not found"}; continue
             dst=os.path.join(WT,pd,os.path.basename(demo)); shutil.copy(demo,dst)
             rc1,out1=sh(f"go test -vet=off -count=1 -timeout 10m -run '{pat}' ./{pd}",WT)
-            sh("git stash -q",WT)  # removes the patch, keeps untracked demo
+            # remove the patch (keeps the untracked demo); never `git stash`: refs/stash is shared by all worktrees
+            sh(f"git apply -R {d}/patch.diff",WT)
             rc2,out2=sh(f"go test -vet=off -count=1 -timeout 10m -run '{pat}' ./{pd}",WT)
-            sh("git stash pop -q",WT)
+            sh(f"git apply {d}/patch.diff",WT)
             os.remove(dst)
             res[os.path.basename(demo)]={"package":pd,"tests":tests,"fails_with_patch":rc1!=0,"passes_without_patch":rc2==0,
                 "with_patch_tail":out1[-400:],"without_patch_tail":out2[-200:]}
         meta["demo"]=res
         meta["confirmed"]=bool(res) and all(v.get("fails_with_patch") and v.get("passes_without_patch") for v in res.values()) and meta["builds_with_patch"] and meta["touched_package_tests_pass_with_patch"]
-        meta["commands"]=["git apply patch.diff","go build ./...",f"go test -vet=off -count=1 {pk}","go test -run <demo tests> (with patch: must fail)","git stash; go test -run <demo tests> (without patch: must pass)"]
+        meta["commands"]=["git apply patch.diff","go build ./...",f"go test -vet=off -count=1 {pk}","go test -run <demo tests> (with patch: must fail)","git apply -R patch.diff; go test -run <demo tests> (without patch: must pass)"]
         json.dump(meta,open(d+'/meta.json','w'),indent=1)
         print(sid,"confirmed" if meta["confirmed"] else "NOT CONFIRMED",{k:(v.get('fails_with_patch'),v.get('passes_without_patch')) for k,v in res.items()},flush=True)
 finally:
